@@ -24,8 +24,10 @@ LEVEL_TEXT = ("Theorems (Lean 4) about the statement-by-statement model of the e
               "check point): each lists exactly the live components (`params_lists_live`, `limits_lists_live`, `phases_lists_live` - full strength since the "
               "Rectifier rows missing from phases() were repaired in /repo f863daa, a defect found by this model), shows the stored normalised parameter or "
               "`interp` for a table (`params_show_normalised`), a limit iff it differs from the default (`limits_show_nondefault`), the per-phase value of a load "
-              "(`phases_show_values`), and all four are the same up to row order for every valid topological order (`reports_order_free`). NOT proved: "
-              "rail_rep / save / diagrams as functions of the abstract structure - these rest on the differential test: after "
+              "(`phases_show_values`), and all four are the same up to row order for every valid topological order (`reports_order_free`). rail_rep() (Props/C16Rail): two histories with the same final structure give rail reports "
+              "that are equal up to row order and the order inside a warning cell (`histories_same_rail_rep`; all members of a rail show the same Vin: "
+              "`rail_members_same_vin`). NOT proved: "
+              "save / diagrams as functions of the abstract structure - these rest on the differential test: after "
               "random successful edit histories every report (solve, rail_rep, params, limits, phases, tree, save, make_diag) of "
               "the edited system is compared with the same report of systems built from scratch from the final structure in a "
               "canonical and in shuffled construction orders.")
@@ -33,7 +35,7 @@ LEVEL_NOTE = ("proved: bookkeeping factors through the abstraction; solver and s
               "order and topological order. Which law exception escapes when two components fail in the same sweep does depend on the "
               "processing order (the exception class does not). The composition of the two halves and the other reports are tested, not proved.")
 MODULE = "SysLoss.Props.C16"
-MODULES = ["SysLoss.Props.C16", "SysLoss.Props.C16Renumber", "SysLoss.Props.C16Final", "SysLoss.Props.C16Reports"]
+MODULES = ["SysLoss.Props.C16", "SysLoss.Props.C16Renumber", "SysLoss.Props.C16Final", "SysLoss.Props.C16Reports", "SysLoss.Props.C16Rail"]
 THEOREMS = [
     "SysLoss.C16.names_factor", "SysLoss.C16.rel_factors", "SysLoss.C16.phase_lkup_factors",
     "SysLoss.C16.noops_invisible", "SysLoss.C16.factors_nonvacuous", "SysLoss.C16.toSSys_node",
@@ -54,7 +56,12 @@ THEOREMS = [
     # Props/C16Reports: the Lean model of params() / limits() / phases() / tree() (Model/Reports.lean)
     "params_lists_live", "limits_lists_live", "params_show_config", "params_show_normalised", "limits_show_nondefault",
     "phases_rows_keys", "phases_lists_live", "phases_show_activity", "phases_show_values", "phases_rows_wf", "phases_domain",
-    "params_order_free", "tree_order_free", "phases_order_free", "reports_order_free", "tree_lists_live_partial", "regression_rectifier")]
+    "params_order_free", "tree_order_free", "phases_order_free", "reports_order_free", "tree_lists_live_partial", "regression_rectifier")] + [
+    "SysLoss.C16R." + t for t in (
+    # Props/C16Rail: rail_rep() as a function of the final structure
+    "railRep_perm_congr", "railRep_perm_congr_needs_uniform", "rail_members_same_vin", "solve_railVinUniform", "rail_rep_renumber",
+    "rail_rep_renumber_rows", "RailPerm.length_eq", "RailPerm.mem_left", "RailPerm.mem_right", "RailsUnique.iso", "railsOf_perm",
+    "toSSys_railsUnique", "same_structure_same_rail_rep", "histories_same_rail_rep")]
 RULE = ("random edit histories of 5-50 calls (all six methods, ~20% rejected and dropped, components with limits and interpolation "
         "tables, phases, groups, rails, a PMux in ~50%) with forced coverage of: rename through change_comp, deletion with and "
         "without children, re-adding a deleted name, edits above / below / of the PMux and of its inputs, source deletion freeing "
@@ -412,6 +419,12 @@ def check_point(ctx, run, stream, diag=False):
                 out.append(("lists_live", {"report": "save/" + reg, "keys": [k for k, _ in d["system"][reg]], "live": live}))
     for b in config_shown(run, rep):
         out.append(("params_show_config", b))
+    # the PMux's ordered inputs as the accepted calls define them (priority order is part of the final structure)
+    st_ = run.cur()
+    if getattr(run, "mux_expect", None) is not None and st_["mux"] == run.mux_expect[0] and st_["mux_parents"] is not None:
+        if list(st_["mux_parents"]) != list(run.mux_expect[1]):
+            out.append(("mux_input_order", {"mux": st_["mux"], "save_shows": list(st_["mux_parents"]),
+                                            "calls_define": list(run.mux_expect[1])}))
     fs = final_structure(run)
     if fs is None:
         out.append(("report_raises", {"why": "the final structure cannot be reconstructed", "save": run.cur()["save_exc"]}))
@@ -693,6 +706,18 @@ def run(ctx):
                 ctx.stats["main:final-has-mux"] += 1
             if st["phases"]:
                 ctx.stats["main:final-has-phases"] += 1
+
+
+    # scripted family: a PMux over related inputs (ancestor / descendant, by rail / by name), then edits of the inputs -
+    # the order and the spelling of the recorded inputs is where an edit history can leak into the results
+    for _ in range(ctx.n(30, 500)):
+        r = Run16(G.gen_init(ctx.rng, G.Cfg()))
+        r.deleted = []
+        if r.init_outcome == "ok":
+            G.mux_family(ctx.rng, r.apply)
+            ctx.stats["stream:mux_family:histories"] += 1
+            if not any(s_["wf"] for s_ in r.steps):
+                check_history(ctx, r, "mux_family")
 
 
 def search(ctx):
